@@ -254,7 +254,7 @@ const c06Watchdog = 20 * time.Second
 // zero-width items or a zero-width top-level record. Such inputs are excluded
 // by construction (DESIGN.md, C06): a few bytes may legally declare 2^62 items.
 func fileAmplifies(data []byte) bool {
-	lay, _ := ref.ParseFile(data)
+	lay, _ := ref.ParseHeader(data) // the header only: the blocks of a mutated file are not to be trusted with memory
 	sj, ok := lay.Meta["avro.schema"]
 	if !ok {
 		return false
